@@ -38,6 +38,7 @@ impl EdgeId {
 //@end
 }
 pub type Entry = (NodeId, EdgeId);
+pub open spec fn sorted_by_nbr(s: Seq<Entry>) -> bool { forall|i: int, j: int| 0 <= i <= j < s.len() ==> s[i].0.0 <= s[j].0.0 }
 //@struct GraphStore keep=outgoing,incoming,frozen_outgoing,frozen_incoming,edge_endpoints,edge_type_ids,edge_properties,free_edge_ids,next_edge_id,edge_type_index,current_version
 //@item type TxnId
 //@enum GraphError
@@ -52,6 +53,11 @@ pub struct EdgeType { t: u8 }
 impl Clone for EdgeType {
     #[verifier::external_body]
     fn clone(&self) -> (r: Self) ensures r == *self { unimplemented!() }
+}
+/// comparing two edge types with == / != decides whether they are the same type (derived PartialEq on a string newtype; assumed)
+impl vstd::std_specs::cmp::PartialEqSpecImpl for EdgeType {
+    open spec fn obeys_eq_spec() -> bool { true }
+    open spec fn eq_spec(&self, other: &EdgeType) -> bool { *self == *other }
 }
 #[verifier::external_body]
 pub struct PropertyMap { m: u8 }
@@ -71,16 +77,45 @@ impl Edge {
         ensures r.id == id, r.source == source, r.target == target, r.edge_type == edge_type, r.properties == properties
     { unimplemented!() }
 }
-/// the frozen (CSR) tier as unit store_adj proves it: per node a sequence of entries, handed out in order
+/// one frozen (CSR) segment as unit store_adj proves it: per node a run of entries sorted by neighbour (from_vec_of_vec)
 #[verifier::external_body]
-pub struct FrozenAdjacencyStore { f: u8 }
-impl FrozenAdjacencyStore {
+pub struct FrozenAdjacency { f: u8 }
+impl FrozenAdjacency {
     pub uninterp spec fn nbrs(&self, i: int) -> Seq<Entry>;
+    #[verifier::external_body]
+    pub fn neighbors(&self, node_idx: usize) -> (r: &[Entry])
+        ensures r@ == self.nbrs(node_idx as int), sorted_by_nbr(r@)
+    { unimplemented!() }
+}
+/// the frozen tier: the segments, oldest first; a node's frozen entries are its runs in the segments, one after the other
+pub struct FrozenAdjacencyStore { pub segments: Vec<FrozenAdjacency> }
+impl FrozenAdjacencyStore {
+    pub open spec fn all_nbrs(segs: Seq<FrozenAdjacency>, k: int, i: int) -> Seq<Entry>
+        decreases k
+    {
+        if k <= 0 { Seq::empty() } else { Self::all_nbrs(segs, k - 1, i) + segs[k - 1].nbrs(i) }
+    }
+    pub open spec fn nbrs(&self, i: int) -> Seq<Entry> { Self::all_nbrs(self.segments@, self.segments@.len() as int, i) }
     #[verifier::external_body]
     pub fn neighbors_collected(&self, node_idx: usize) -> (r: Vec<Entry>)
         ensures r@ == self.nbrs(node_idx as int)
     { unimplemented!() }
 }
+/// `opt.map(|v| v.as_slice()).unwrap_or(&[])` (std; assumed; wrapper body is the original chain): the vector as a slice, or nothing
+#[verifier::external_body]
+pub fn slice_or_empty<'a, T>(o: Option<&'a Vec<T>>) -> (r: &'a [T])
+    ensures r@ == (match o { Some(v) => v@, None => Seq::empty() })
+{ o.map(|v| v.as_slice()).unwrap_or(&[]) }
+/// `v.first()` (std; assumed)
+#[verifier::external_body]
+pub fn vec_first<T>(v: &Vec<T>) -> (r: Option<&T>)
+    ensures r is Some <==> v@.len() > 0, r matches Some(x) ==> *x == v@[0]
+{ v.first() }
+/// `v.extend(w)` for two vectors (std; assumed): w's elements are appended in order
+#[verifier::external_body]
+pub fn vec_extend<T>(v: &mut Vec<T>, w: Vec<T>)
+    ensures final(v)@ == old(v)@ + w@
+{ v.extend(w) }
 #[verifier::external_body]
 pub proof fn axiom_key_models()
     ensures vstd::std_specs::hash::obeys_key_model::<EdgeId>(), vstd::std_specs::hash::obeys_key_model::<EdgeType>()
@@ -96,7 +131,6 @@ pub fn map_entry_or_insert_with<'a, K: Eq + std::hash::Hash, V, F: FnOnce() -> V
         !old(m)@.contains_key(k) ==> f.ensures((), *r),
         final(m)@ == old(m)@.insert(k, *final(r)),
 { m.entry(k).or_insert_with(f) }
-pub open spec fn sorted_by_nbr(s: Seq<Entry>) -> bool { forall|i: int, j: int| 0 <= i <= j < s.len() ==> s[i].0.0 <= s[j].0.0 }
 /// `list.binary_search_by_key(&key, |(nid, _)| *nid)` (std; assumed; wrapper body is the original call): a position within
 /// the list holding the key, or -- when the list is sorted by neighbour -- the position that keeps it sorted
 #[verifier::external_body]
@@ -105,6 +139,13 @@ pub fn search_by_nbr(list: &Vec<Entry>, key: &NodeId) -> (r: Result<usize, usize
         r matches Ok(p) ==> p < list@.len() && list@[p as int].0 == *key,
         r matches Err(p) ==> p <= list@.len() && (sorted_by_nbr(list@) ==>
             (forall|i: int| 0 <= i < p ==> (#[trigger] list@[i]).0.0 < key.0) && (forall|i: int| p <= i < list@.len() ==> (#[trigger] list@[i]).0.0 > key.0)),
+{ list.binary_search_by_key(key, |(nid, _)| *nid) }
+/// the same search on a slice (search_adjacency_slice takes `&[(NodeId, EdgeId)]`)
+#[verifier::external_body]
+pub fn search_slice_by_nbr(list: &[Entry], key: &NodeId) -> (r: Result<usize, usize>)
+    ensures
+        r matches Ok(p) ==> p < list@.len() && list@[p as int].0 == *key,
+        r matches Err(p) ==> p <= list@.len() && (sorted_by_nbr(list@) ==> forall|i: int| 0 <= i < list@.len() ==> (#[trigger] list@[i]).0 != *key),
 { list.binary_search_by_key(key, |(nid, _)| *nid) }
 /// Result::unwrap_or_else (std; assumed)
 pub assume_specification<T, E, F: FnOnce(E) -> T>[ Result::<T, E>::unwrap_or_else ](r: Result<T, E>, f: F) -> (o: T)
@@ -426,6 +467,212 @@ impl GraphStore {
             self.lemma_resolve_concat(fro@, buf(self.incoming@, node_id.0 as int));
             assert(self.resolve(fro@) + Seq::<Edge>::empty() =~= self.resolve(fro@));
         }
+//@end
+
+    /// get_edge_type (unit store_mvcc): the interned type of an edge, a function of the store (assumed here)
+    pub uninterp spec fn type_view(&self, id: EdgeId) -> Option<EdgeType>;
+    #[verifier::external_body]
+    pub fn get_edge_type(&self, edge_id: EdgeId) -> (r: Option<EdgeType>) ensures r == self.type_view(edge_id) { unimplemented!() }
+    /// does the edge behind an adjacency entry count as an edge from source to target of the wanted type?
+    pub open spec fn edge_ok(&self, eid: EdgeId, source: NodeId, target: NodeId, et: Option<EdgeType>) -> bool {
+        match self.edge_view(eid) {
+            Some(e) => e.source == source && e.target == target && (et matches Some(t) ==> e.edge_type == t),
+            None => (et matches Some(t) ==> self.type_view(eid) == Some(t)),
+        }
+    }
+    /// the ids of the entries whose neighbour is `key` and whose edge counts, in order
+    pub open spec fn found(&self, es: Seq<Entry>, key: NodeId, source: NodeId, target: NodeId, et: Option<EdgeType>) -> Seq<EdgeId>
+        decreases es.len()
+    {
+        if es.len() == 0 { Seq::empty() }
+        else if es.last().0 == key && self.edge_ok(es.last().1, source, target, et) { self.found(es.drop_last(), key, source, target, et).push(es.last().1) }
+        else { self.found(es.drop_last(), key, source, target, et) }
+    }
+    pub proof fn lemma_found_concat(&self, a: Seq<Entry>, b: Seq<Entry>, key: NodeId, source: NodeId, target: NodeId, et: Option<EdgeType>)
+        ensures self.found(a + b, key, source, target, et) == self.found(a, key, source, target, et) + self.found(b, key, source, target, et)
+        decreases b.len()
+    {
+        if b.len() == 0 {
+            assert(a + b =~= a);
+            assert(self.found(a, key, source, target, et) + Seq::<EdgeId>::empty() =~= self.found(a, key, source, target, et));
+        } else {
+            assert((a + b).drop_last() =~= a + b.drop_last());
+            assert((a + b).last() == b.last());
+            self.lemma_found_concat(a, b.drop_last(), key, source, target, et);
+            if b.last().0 == key && self.edge_ok(b.last().1, source, target, et) {
+                let fa = self.found(a, key, source, target, et); let fb = self.found(b.drop_last(), key, source, target, et);
+                assert((fa + fb).push(b.last().1) =~= fa + fb.push(b.last().1));
+            }
+        }
+    }
+    /// the matches in the first k segments are a prefix of the matches in all of them
+    pub proof fn lemma_found_prefix(&self, segs: Seq<FrozenAdjacency>, k: int, i: int, key: NodeId, source: NodeId, target: NodeId, et: Option<EdgeType>)
+        requires 0 <= k <= segs.len()
+        ensures ({
+            let part = self.found(FrozenAdjacencyStore::all_nbrs(segs, k, i), key, source, target, et);
+            let whole = self.found(FrozenAdjacencyStore::all_nbrs(segs, segs.len() as int, i), key, source, target, et);
+            part.len() <= whole.len() && whole.take(part.len() as int) == part })
+        decreases segs.len() - k
+    {
+        let part = self.found(FrozenAdjacencyStore::all_nbrs(segs, k, i), key, source, target, et);
+        if k == segs.len() {
+            assert(part.take(part.len() as int) =~= part);
+        } else {
+            self.lemma_found_prefix(segs, k + 1, i, key, source, target, et);
+            self.lemma_found_concat(FrozenAdjacencyStore::all_nbrs(segs, k, i), segs[k].nbrs(i), key, source, target, et);
+            let next = self.found(FrozenAdjacencyStore::all_nbrs(segs, k + 1, i), key, source, target, et);
+            let whole = self.found(FrozenAdjacencyStore::all_nbrs(segs, segs.len() as int, i), key, source, target, et);
+            assert(next.take(part.len() as int) =~= part);
+            assert(whole.take(part.len() as int) =~= whole.take(next.len() as int).take(part.len() as int));
+        }
+    }
+    /// entries none of which has the key contribute nothing
+    pub proof fn lemma_found_none(&self, es: Seq<Entry>, key: NodeId, source: NodeId, target: NodeId, et: Option<EdgeType>)
+        requires forall|i: int| 0 <= i < es.len() ==> (#[trigger] es[i]).0 != key
+        ensures self.found(es, key, source, target, et) == Seq::<EdgeId>::empty()
+        decreases es.len()
+    {
+        if es.len() > 0 {
+            assert forall|i: int| 0 <= i < es.drop_last().len() implies (#[trigger] es.drop_last()[i]).0 != key by { assert(es.drop_last()[i] == es[i]); }
+            self.lemma_found_none(es.drop_last(), key, source, target, et);
+        }
+    }
+
+//@fn GraphStore::search_adjacency_slice ret=r
+//@replace "entries.binary_search_by_key(&search_key, |(nid, _)| *nid)" => "search_slice_by_nbr(entries, &search_key)" :: slice method with a key closure over a tuple pattern: routed through a wrapper whose body is the same call
+//@requires
+        sorted_by_nbr(entries@),
+//@ensures
+        r@ == self.found(entries@, search_key, source, target, match edge_type { Some(t) => Some(*t), None => None }),      //#exactly_the_matching_entries_of_the_key_s_run_in_order
+//@atstart
+        let ghost etv: Option<EdgeType> = match edge_type { Some(t) => Some(*t), None => None };
+        proof {
+            if forall|i: int| 0 <= i < entries@.len() ==> (#[trigger] entries@[i]).0 != search_key {
+                self.lemma_found_none(entries@, search_key, source, target, etv);
+            }
+        }
+//@loop 1
+                invariant 0 <= p <= pos < entries@.len(), sorted_by_nbr(entries@),
+                    forall|i: int| p <= i <= pos ==> (#[trigger] entries@[i]).0 == search_key,
+                decreases p
+//@loop 2 iter=it
+            invariant_except_break
+                done == it.index(),
+            invariant
+                sorted_by_nbr(entries@), 0 <= start < entries@.len(), etv == (match edge_type { Some(t) => Some(*t), None => None }),
+                0 <= done, start + done <= entries@.len(), entries@[start as int].0 == search_key,
+                forall|i: int| 0 <= i < start ==> (#[trigger] entries@[i]).0 != search_key,
+                forall|i: int| start <= i < start + done ==> (#[trigger] entries@[i]).0 == search_key,
+                result@ == self.found(entries@.subrange(start as int, start + done), search_key, source, target, etv),      //#found_in_the_run_so_far
+            ensures
+                start + done == entries@.len() || entries@[start + done].0 != search_key,      //#the_run_ends_here
+//@beforeloop 2
+        let ghost mut done: int = 0;
+        proof {
+            assert(entries@.subrange(start as int, start as int) =~= Seq::<Entry>::empty());
+            assert forall|i: int| 0 <= i < start implies (#[trigger] entries@[i]).0 != search_key by {
+                if entries@[i].0 == search_key { assert(entries@[i].0.0 <= entries@[start - 1].0.0); assert(entries@[start - 1].0.0 <= entries@[start as int].0.0); }
+            }
+        }
+//@loopstart 2
+            proof {
+                let j = start + done;
+                assert(i == j);
+                assert(entries@.subrange(start as int, j + 1).drop_last() =~= entries@.subrange(start as int, j));
+                assert(entries@.subrange(start as int, j + 1).last() == entries@[j]);
+            }
+//@loopend 2
+            proof { done = done + 1; }
+//@atend
+        proof {
+            // the run [start, start + done) holds every entry with the key; what lies before and after contributes nothing
+            let n = entries@.len() as int;
+            let e_ = start + done;
+            let a = entries@.subrange(0, start as int);
+            let run = entries@.subrange(start as int, e_);
+            let rest = entries@.subrange(e_, n);
+            assert(entries@ =~= a + run + rest);
+            assert forall|i: int| 0 <= i < rest.len() implies (#[trigger] rest[i]).0 != search_key by {
+                assert(rest[i] == entries@[e_ + i]);
+                assert(entries@[start as int].0.0 <= entries@[e_].0.0 && entries@[e_].0.0 <= entries@[e_ + i].0.0);
+            }
+            self.lemma_found_none(a, search_key, source, target, etv);
+            self.lemma_found_none(rest, search_key, source, target, etv);
+            self.lemma_found_concat(a, run, search_key, source, target, etv);
+            self.lemma_found_concat(a + run, rest, search_key, source, target, etv);
+            assert(Seq::<EdgeId>::empty() + self.found(run, search_key, source, target, etv) =~= self.found(run, search_key, source, target, etv));
+            assert(self.found(run, search_key, source, target, etv) + Seq::<EdgeId>::empty() =~= self.found(run, search_key, source, target, etv));
+        }
+//@end
+
+//@fn GraphStore::edges_between ret=r
+//@replaceall "result.extend(" => "vec_extend(&mut result, " :: Vec::extend (generic over IntoIterator) has no Verus specification: wrapper whose body is the same call
+//@requires
+        sorted_by_nbr(buf(self.outgoing@, source.0 as int)),      // the write buffer of the source is kept sorted by create_edge / delete_edge (store_adj, store_edges)
+//@ensures
+        r@ == self.found(self.frozen_outgoing.nbrs(source.0 as int) + buf(self.outgoing@, source.0 as int), target, source, target,
+            match edge_type { Some(t) => Some(*t), None => None }),      //#every_matching_entry_frozen_then_buffered
+//@atstart
+        let ghost etv: Option<EdgeType> = match edge_type { Some(t) => Some(*t), None => None };
+        let ghost segs = self.frozen_outgoing.segments@;
+//@loop 1 iter=its
+            invariant
+                src_idx == source.0, segs == self.frozen_outgoing.segments@, etv == (match edge_type { Some(t) => Some(*t), None => None }),
+                its.seq().len() == segs.len(), forall|k: int| 0 <= k < segs.len() ==> *(#[trigger] its.seq()[k]) == segs[k],
+                result@ == self.found(FrozenAdjacencyStore::all_nbrs(segs, its.index() as int, src_idx as int), target, source, target, etv),      //#segments_so_far
+//@loopstart 1
+            proof {
+                let k = its.index() as int;
+                assert(*seg == segs[k]);
+                self.lemma_found_concat(FrozenAdjacencyStore::all_nbrs(segs, k, src_idx as int), segs[k].nbrs(src_idx as int), target, source, target, etv);
+            }
+//@atend
+        proof {
+            self.lemma_found_concat(self.frozen_outgoing.nbrs(src_idx as int), buf(self.outgoing@, src_idx as int), target, source, target, etv);
+            assert(self.found(Seq::<Entry>::empty(), target, source, target, etv) =~= Seq::<EdgeId>::empty());
+            assert(result@ + Seq::<EdgeId>::empty() =~= result@);
+        }
+//@end
+
+//@fn GraphStore::edge_between ret=r
+//@replace "self.outgoing.get(src_idx).map(|v| v.as_slice()).unwrap_or(&[])" => "slice_or_empty(self.outgoing.get(src_idx))" :: Option::map/unwrap_or over slices: wrapper whose body is the same chain
+//@replaceall "found.first()" => "vec_first(&found)" :: Vec::first through a wrapper (same call)
+//@requires
+        sorted_by_nbr(buf(self.outgoing@, source.0 as int)),
+//@ensures
+        r is Some <==> self.found(self.frozen_outgoing.nbrs(source.0 as int) + buf(self.outgoing@, source.0 as int), target, source, target,
+            match edge_type { Some(t) => Some(*t), None => None }).len() > 0,      //#some_iff_a_matching_entry_exists
+        r matches Some(e) ==> self.found(self.frozen_outgoing.nbrs(source.0 as int) + buf(self.outgoing@, source.0 as int), target, source, target,
+            match edge_type { Some(t) => Some(*t), None => None }).contains(e),      //#returns_a_matching_edge
+//@atstart
+        let ghost etv: Option<EdgeType> = match edge_type { Some(t) => Some(*t), None => None };
+        let ghost segs = self.frozen_outgoing.segments@;
+        let ghost fz = self.frozen_outgoing.nbrs(source.0 as int);
+        let ghost bf = buf(self.outgoing@, source.0 as int);
+        proof { self.lemma_found_concat(fz, bf, target, source, target, etv); }
+//@after "let found = self.search_adjacency_slice(buffer_entries"
+        proof {
+            if found@.len() > 0 {
+                let fa = self.found(fz, target, source, target, etv);
+                assert((fa + found@)[fa.len() as int] == found@[0]);
+            }
+        }
+//@loop 1 iter=its
+            invariant
+                src_idx == source.0, segs == self.frozen_outgoing.segments@, etv == (match edge_type { Some(t) => Some(*t), None => None }),
+                fz == self.frozen_outgoing.nbrs(source.0 as int), bf == buf(self.outgoing@, source.0 as int),
+                self.found(fz + bf, target, source, target, etv) == self.found(fz, target, source, target, etv) + self.found(bf, target, source, target, etv),
+                self.found(bf, target, source, target, etv).len() == 0,
+                its.seq().len() == segs.len(), forall|k: int| 0 <= k < segs.len() ==> *(#[trigger] its.seq()[k]) == segs[k],
+                self.found(FrozenAdjacencyStore::all_nbrs(segs, its.index() as int, src_idx as int), target, source, target, etv).len() == 0,      //#nothing_in_the_segments_so_far
+//@loopstart 1
+            proof {
+                let k = its.index() as int;
+                assert(*seg == segs[k]);
+                self.lemma_found_concat(FrozenAdjacencyStore::all_nbrs(segs, k, src_idx as int), segs[k].nbrs(src_idx as int), target, source, target, etv);
+                // a hit in segment k is a hit in the whole frozen tier: the later segments only append
+                self.lemma_found_prefix(segs, k + 1, src_idx as int, target, source, target, etv);
+            }
 //@end
 
 //@fn GraphStore::create_edge_stub ret=r
